@@ -73,6 +73,10 @@ def interp_worker(job):
         fl = call_lib(job["fluid"])
         prop = fl.all_properties[job["prop"]]
     xs, ys = np.asarray(prop.prop_getter.x, dtype=float), np.asarray(prop.prop_getter.y, dtype=float)
+    if job.get("table"):
+        # the reference is the table the user gave (in ascending order of x), not what the interpolator stored
+        order = np.argsort(np.asarray(job["table"][0], dtype=float))
+        xs, ys = np.asarray(job["table"][0], dtype=float)[order], np.asarray(job["table"][1], dtype=float)[order]
     viol = []
 
     def run():
@@ -130,6 +134,9 @@ def replay_interp(rs):
         fl = call_lib(rs["fluid"])
         prop = fl.all_properties[rs["prop"]]
     xs, ys = np.asarray(prop.prop_getter.x, dtype=float), np.asarray(prop.prop_getter.y, dtype=float)
+    if rs.get("table"):
+        order = np.argsort(np.asarray(rs["table"][0], dtype=float))
+        xs, ys = np.asarray(rs["table"][0], dtype=float)[order], np.asarray(rs["table"][1], dtype=float)[order]
     xv = float(rs["x"])
     i = int(np.clip(np.searchsorted(xs, xv), 1, len(xs) - 1))
     want = ys[i - 1] + (ys[i] - ys[i - 1]) * (xv - xs[i - 1]) / (xs[i] - xs[i - 1])
@@ -471,6 +478,11 @@ def jobs(tier, seed):
         for prop in ("density", "viscosity", "heat_capacity"):
             out.append({"name": "interp/%s/%s" % (f, prop), "kind": "interp", "fluid": f, "prop": prop})
     out.append({"name": "classes", "kind": "classes"})
+    # user-defined tables whose rows are not in ascending order of x (a descending data sheet, shuffled measurements)
+    out.append({"name": "interp/user_descending", "kind": "interp", "fluid": "user", "prop": "descending",
+                "table": [[400.0, 350.0, 300.0, 273.15], [0.6, 0.9, 1.3, 1.8]]})
+    out.append({"name": "interp/user_shuffled", "kind": "interp", "fluid": "user", "prop": "shuffled",
+                "table": [[300.0, 273.15, 400.0, 350.0, 500.0], [1.3, 1.8, 0.6, 0.9, 0.4]]})
     if tier == "thorough":
         import random
         rng = random.Random(1900 + seed)
